@@ -945,19 +945,21 @@ def run_configs(ctx, prop, configs, n, extra_oracle=None, n_by_kind=None):
                 return RuntimeError("server keeps dying of resource limits: %s" % rs[0][1]["stderr_tail"][:3])
         # a script that missed a time bound is run again alone, on a fresh server with the same
         # delays and 4x the bounds, before anything is reported (loaded machines)
-        out = []
-        for j, (sc, r) in enumerate(rs):
-            if (r["timeouts"] or r["error"]) and not (r.get("server_panicked") and not r.get("resource_failure")):
-                retried["scripts_timeout"] += 1
-                r2 = attempt(ix, "r%d" % j, par=1, tfactor=4.0, scenarios=[sc])
-                if not isinstance(r2, Exception):
-                    r2[0][1]["first_attempt"] = dict(timeouts=r["timeouts"], error=r["error"],
-                                                     received=[abbreviate(m) for m in r["received"][-6:]])
-                    if r2[0][1]["timeouts"] or r2[0][1]["error"]:
+        out = list(rs)
+        failing = [j for j, (sc, r) in enumerate(rs)
+                   if (r["timeouts"] or r["error"]) and not (r.get("server_panicked") and not r.get("resource_failure"))]
+        if failing:
+            retried["scripts_timeout"] += len(failing)
+            # together on one fresh server (at most 4 at a time), not one server each: keeps the failure path short
+            r2 = attempt(ix, "r", par=4, tfactor=4.0, scenarios=[rs[j][0] for j in failing])
+            if not isinstance(r2, Exception):
+                for j, (sc2, res2) in zip(failing, r2):
+                    r = rs[j][1]
+                    res2["first_attempt"] = dict(timeouts=r["timeouts"], error=r["error"],
+                                                 received=[abbreviate(m) for m in r["received"][-6:]])
+                    if res2["timeouts"] or res2["error"]:
                         retried["scripts_still_failing"] += 1
-                    out.append(r2[0])
-                    continue
-            out.append((sc, r))
+                    out[j] = (sc2, res2)
         return out
 
     results = common.pmap(one, list(range(len(configs))), workers=4)
